@@ -300,8 +300,11 @@ func init() {
 		}
 		return false
 	}}
-	core.Register(&core.Prop{ID: "C03", Level: "exploration", Body: c03.bodyC03, Passes: famPasses(16, 16), CrashKey: crashKeyGeneric, MinDistinct: 50,
-		Rule:        "Same generator as C01 with retry limits 0..2 and scripts failing the first k attempts with k below, at and above the limit, plus fail-always; every maxActiveRuns. Oracle: executions counted by the scripted executor == min(k,limit)+1 for runnable steps and 0 otherwise; Node.State().RetryCount == executions-1; an attempt number above limit+1 is flagged the moment Run() is entered; two Run() calls of one step open at once are flagged. Dry-run part: generated DAGs go through the real agent with Dry=true over a real jsondb directory; any executor event or any file in the data directory afterwards is a violation. Non-trivial = a step was retried or was not runnable. Distinct as in C01.",
+	c03Passes := func(tier string) []core.Pass {
+		return append(famPasses(16, 16)(tier), core.Pass{Name: "real", Mode: "real", Shards: 12, Timeout: 40 * time.Minute})
+	}
+	core.Register(&core.Prop{ID: "C03", Level: "exploration", Body: c03.bodyC03, Passes: c03Passes, CrashKey: crashKeyGeneric, MinDistinct: 50,
+		Rule:        "Same generator as C01 with retry limits 0..2 and scripts failing the first k attempts with k below, at and above the limit, plus fail-always; every maxActiveRuns. Oracle: executions counted by the scripted executor == min(k,limit)+1 for runnable steps and 0 otherwise; Node.State().RetryCount == executions-1; an attempt number above limit+1 is flagged the moment Run() is entered; two Run() calls of one step open at once are flagged. Dry-run part: generated DAGs go through the real agent with Dry=true over a real jsondb directory; any executor event or any file in the data directory afterwards is a violation. Real pass: 96 (1200) definitions LOADED FROM YAML and run by the real scheduler with the real command executor, one step of kind {command string, command list, script, script with interpreter arguments, shell wrapper, quoted arguments with a command substitution} that is a child process counting its own executions and failing its first k attempts (k in 0,1,2,3,9) under retry limit 0..3: executions == min(k,limit)+1, final state, recorded retry count, state of its dependent. Non-trivial = a step was retried or was not runnable. Distinct as in C01.",
 		Assumptions: []string{"dry-run cases are executed through Agent.Run in-process; the CLI's `dry` command wiring is covered by the pinned suite only"}})
 
 	c15gen := GenOpts{MaxN: 6, Retries: true, Failures: true, MaxActive: true, SubWorkflow: true, RetryMsProb: 25}
